@@ -10,6 +10,9 @@ func init() { register("C24", checkC24) }
 
 func checkC24(c *Ctx, r *Report) {
 	const tPF = pkgHC + ".passiveFilter"
+	// the two maps are found by their types, so that renaming them does not move the anchors
+	fUnhealthy := fieldByType(c, tPF, "map[string]time.Time", "unhealthy")
+	fFailures := fieldByType(c, tPF, "map[string][]time.Time", "failures")
 	r.Explain = "Structural clauses of passive health filtering (narrow claim): (R1) a passively checked list returns the unfiltered host set whenever the filtered set is empty, and the filtered set is computed from that same host set — so it never resolves to empty while it has hosts; (R2) the filter removes hosts only from a copy of its input; a host is removed only on the not-yet-timed-out side of its unhealthy mark and the mark is dropped on the timed-out side; (R3) a host is marked unhealthy only where the number of retained failures reached Fails, after failures older than FailTimeout were pruned from the front; (R4) the maps are accessed under the filter's mutex."
 	r.NotDecided = "The failure-window rule as such ('exactly when at least Fails failures fall within FailTimeout of some failure no older than FailTimeout'): timeline arithmetic."
 	r1 := r.Rule("R1", "E-GUARD", "Passive.Resolve returns the host list itself on the len(filtered)==0 side and the filtered set otherwise; the filter ran on that same host set", 1)
@@ -60,22 +63,88 @@ func checkC24(c *Ctx, r *Report) {
 			return 0
 		}
 		notTimedOut := func(cond ssa.Value, val bool) int { return -timedOut(cond, val) }
-		nrm := 0
-		for _, cs := range callsInNamed(run, "(utils/stringset.Set).Remove") {
-			nrm++
-			if !ok || cs.Instr.Common().Args[0] != cp[0].Instr.Value() || !guardedBy(cs.Instr, notTimedOut) {
-				ok = false
+		// the expiry of marks: deletes of the unhealthy map in Run or in a helper method
+		// it calls, each on the timed-out side
+		ndel := 0
+		var expiry *RangeLoop // a loop over the marks that deletes every timed-out one
+		var expiryIn *ssa.Function
+		scope := []*ssa.Function{run}
+		for _, cs := range callsIn(run) {
+			if h := cs.Instr.Common().StaticCallee(); h != nil && h.Pkg == run.Pkg && len(h.Blocks) > 0 && recvTypeName(h) == tPF {
+				scope = append(scope, h)
 			}
 		}
-		ndel := 0
-		instrsOf(run, func(in ssa.Instruction) {
-			if isMapDeleteOn(in, tPF+".unhealthy") {
+		for _, g := range scope {
+			g := g
+			instrsOf(g, func(in ssa.Instruction) {
+				if mu, isMU := in.(*ssa.MapUpdate); isMU && isPureLoadOf(mu.Map, tPF+"."+fUnhealthy) {
+					ok = false // Run does not mark hosts
+				}
+				if !isMapDeleteOn(in, tPF+"."+fUnhealthy) {
+					return
+				}
 				ndel++
 				if !guardedBy(in, timedOut) {
 					ok = false
+					return
+				}
+				// a complete expiry pass: the delete is the first thing on the timed-out
+				// side of the test itself, for the current key of a loop over the marks
+				// that has no other exit
+				blk := in.Block()
+				if len(blk.Preds) != 1 {
+					return
+				}
+				iff, isIf := blk.Preds[0].Instrs[len(blk.Preds[0].Instrs)-1].(*ssa.If)
+				if !isIf {
+					return
+				}
+				side := blk.Preds[0].Succs[0] == blk
+				if timedOut(iff.Cond, side) != 1 {
+					return
+				}
+				for _, l := range rangeLoops(g) {
+					if l.IsMap && l.rangesOverField(tPF+"."+fUnhealthy) && l.contains(blk) && l.derivesFromElem(in.(*ssa.Call).Call.Args[1]) && loopHasNoEarlyExit(g, l) {
+						expiry, expiryIn = l, g
+					}
+				}
+			})
+		}
+		nrm := 0
+		for _, cs := range callsInNamed(run, "(utils/stringset.Set).Remove") {
+			nrm++
+			if !ok || cs.Instr.Common().Args[0] != cp[0].Instr.Value() {
+				ok = false
+				continue
+			}
+			if guardedBy(cs.Instr, notTimedOut) {
+				continue
+			}
+			// two-pass form: every mark that survived a complete expiry pass is removed
+			second := false
+			for _, l := range rangeLoops(run) {
+				if !l.IsMap || !l.rangesOverField(tPF+"."+fUnhealthy) || !l.contains(cs.Instr.Block()) || !l.derivesFromElem(cs.Instr.Common().Args[1]) || expiry == nil || l == expiry {
+					continue
+				}
+				if expiryIn == run {
+					second = len(l.Header.Instrs) > 0 && expiry.completedBefore(l.Header.Instrs[0])
+				} else {
+					for _, hc := range callsIn(run) {
+						if hc.Instr.Common().StaticCallee() == expiryIn && precedes(hc.Instr, cs.Instr) && !l.contains(hc.Instr.Block()) {
+							second = true
+							for _, ret := range returnsOf(expiryIn) {
+								if !expiry.completedBefore(ret) {
+									second = false
+								}
+							}
+						}
+					}
 				}
 			}
-		})
+			if !second {
+				ok = false
+			}
+		}
 		for _, ret := range returnsOf(run) {
 			if ok && unspill(ret.Results[0]) != cp[0].Instr.Value() {
 				ok = false
@@ -88,7 +157,7 @@ func checkC24(c *Ctx, r *Report) {
 		okMark := false
 		instrsOf(fl, func(in ssa.Instruction) {
 			mu, isMU := in.(*ssa.MapUpdate)
-			if !isMU || !isPureLoadOf(mu.Map, tPF+".unhealthy") || mu.Key != fl.Params[1] {
+			if !isMU || !isPureLoadOf(mu.Map, tPF+"."+fUnhealthy) || mu.Key != fl.Params[1] {
 				return
 			}
 			okMark = guardedBy(mu, func(cond ssa.Value, val bool) int {
@@ -110,7 +179,7 @@ func checkC24(c *Ctx, r *Report) {
 		})
 		stored, pruned := false, false
 		instrsOf(fl, func(in ssa.Instruction) {
-			if mu, isMU := in.(*ssa.MapUpdate); isMU && isPureLoadOf(mu.Map, tPF+".failures") && mu.Key == fl.Params[1] {
+			if mu, isMU := in.(*ssa.MapUpdate); isMU && isPureLoadOf(mu.Map, tPF+"."+fFailures) && mu.Key == fl.Params[1] {
 				if mentions(mu.Value, func(v ssa.Value) bool { cl, isC := v.(*ssa.Call); return isC && calleeName(cl.Common()) == "builtin.append" }, 4) {
 					stored = true
 				}
@@ -150,8 +219,8 @@ func checkC24(c *Ctx, r *Report) {
 			continue
 		}
 		instrsOf(fn, func(in ssa.Instruction) {
-			wr := isMapDeleteOn(in, tPF+".failures")
-			if mu, isMU := in.(*ssa.MapUpdate); isMU && isPureLoadOf(mu.Map, tPF+".failures") {
+			wr := isMapDeleteOn(in, tPF+"."+fFailures)
+			if mu, isMU := in.(*ssa.MapUpdate); isMU && isPureLoadOf(mu.Map, tPF+"."+fFailures) {
 				wr = true
 			}
 			if !wr {
@@ -167,5 +236,5 @@ func checkC24(c *Ctx, r *Report) {
 		r.Unresolved(r5, "no write of passiveFilter.failures found")
 	}
 	r4 := r.Rule("R4", "E-LOCK", "passiveFilter.unhealthy/failures under the embedded mutex", 2)
-	checkLockRows(c, r, r4, []string{pkgHC}, []LockRow{{Struct: tPF, Mutex: "Mutex", Fields: []string{"unhealthy", "failures"}, Ctors: []string{pkgHC + ".NewPassiveFilter"}}})
+	checkLockRows(c, r, r4, []string{pkgHC}, []LockRow{{Struct: tPF, Mutex: "Mutex", Fields: []string{fUnhealthy, fFailures}, Ctors: []string{pkgHC + ".NewPassiveFilter"}}})
 }
